@@ -1,4 +1,4 @@
-import BiotiteModel.Proofs.C04Links
+import BiotiteModel.Proofs.C04Stack
 /-! Composition of the C04 pieces through `readStructure` (written block → read structure). -/
 namespace BiotiteModel.C04
 
@@ -198,14 +198,6 @@ theorem setIntra_none (atoms : List Atom) (bs : List Bond)
     simpa [isIntra] using this
   simp [setIntra, h1, h2, h3]
 
-/-- If all bonds of `L` are bonds of a well-formed list, `BondList(L)` has exactly the members of `L`. -/
-theorem mem_normBonds_of_mem (bonds L : List Bond) (hu : UniquePairs bonds) (hlt : ∀ b ∈ bonds, b.i < b.j)
-    (hsub : ∀ x ∈ L, x ∈ bonds) (b : Bond) : b ∈ normBonds L ↔ b ∈ L := by
-  rw [mem_normBonds_of_sub bonds L hu (fun x hx => by rw [normB_of_lt x (hlt x (hsub x hx))]; exact hsub x hx)]
-  constructor
-  · rintro ⟨x, hx, rfl⟩; rw [normB_of_lt x (hlt x (hsub x hx))]; exact hx
-  · intro hb; exact ⟨b, hb, normB_of_lt b (hlt b (hsub b hb))⟩
-
 /-! ### the composition -/
 
 /-- Well-formed structure with bond list `bs`, relative to the component dictionary `ccd`. -/
@@ -227,8 +219,9 @@ structure WFS (ccd : Ccd) (s : Structure) (bs : List Bond) : Prop where
   consistent : Consistent s.atoms bs
   /-- without `chem_comp_bond` the reader falls back to the dictionary: it must imply no bond then -/
   noFallback : (∀ b ∈ bs, isIntra s.atoms b = false) → connectIntra s.atoms ccd.bonds = []
-  /-- every backbone link the dictionary implies is a (single) bond of the structure -/
-  linksPresent : ∀ b ∈ connectInter ccd (residues s.atoms), b ∈ bs
+  /-- every backbone link the dictionary implies is bonded in the structure — with **any** type
+  `struct_conn` can express (a non-SINGLE link is written to `struct_conn` and wins the merge) -/
+  linksPaired : ∀ b ∈ connectInter ccd (residues s.atoms), ∃ t, (⟨b.i, b.j, t⟩ : Bond) ∈ bs
   /-- a link the writer omits joins the connector atoms of two residues the dictionary links -/
   droppedClassified : ∀ b ∈ bs, isDroppedLink s.atoms b = true →
     linkNames ccd (atomAt s.atoms b.i).resName (atomAt s.atoms b.j).resName =
@@ -239,13 +232,29 @@ theorem bond_class (atoms : List Atom) (b : Bond) :
   unfold isIntra isDroppedLink isConnRow
   cases inStructConn (resPos atoms) b <;> cases isCanonicalLink atoms (resPos atoms) b <;> simp
 
-theorem bonds_roundtrip (ccd : Ccd) (s : Structure) (bs : List Bond) (w : WFS ccd s bs) :
-    ∃ blk bs', writeBlock s true = .ok blk ∧
-      readStructure ccd blk ⟨some 1, .first, true, s.hasCharge, s.hasAtomId⟩ =
-        .ok ⟨s.atoms, s.hasCharge, s.hasAtomId, [s.coords.headD []], s.box, some bs'⟩ ∧
-      ∀ b, b ∈ bs' ↔ b ∈ bs := by
+theorem dropped_single (atoms : List Atom) (b : Bond) (h : isDroppedLink atoms b = true) : b.t = btSingle := by
+  unfold isDroppedLink isCanonicalLink at h
+  simp only [Bool.and_eq_true, beq_iff_eq, decide_eq_true_eq] at h
+  exact h.2.1.1.2
+
+theorem inStructConn_pair (pos : List Nat) (b z : Bond) (hi : z.i = b.i) (hj : z.j = b.j)
+    (hb : inStructConn pos b = true) (ht : b.t = btSingle) : inStructConn pos z = true := by
+  unfold inStructConn at hb ⊢
+  rw [hi, hj]
+  rw [ht] at hb
+  simp only [btSingle, btCoordination, Bool.or_eq_true] at hb ⊢
+  rcases hb with h | h
+  · left; exact h
+  · exact absurd h (by decide)
+
+/-- The written block and what `get_structure` makes of any of its model blocks. -/
+theorem written_block (ccd : Ccd) (s : Structure) (bs : List Bond) (w : WFS ccd s bs) :
+    ∃ conn ccb bs', writeBlock s true = .ok ⟨writeSite s, conn, ccb, s.box⟩ ∧ (∀ b, b ∈ bs' ↔ b ∈ bs) ∧
+      ∀ (k : Int) (i : Nat) (c : List Tok) (C : List (List Tok)), c.length = s.atoms.length →
+        (∀ x ∈ C, x.length = s.atoms.length) →
+        readCore ccd (modelBlock s.hasAtomId k i (writeRows s) c) C conn ccb s.box s.hasCharge s.hasAtomId =
+          .ok ⟨s.atoms, s.hasCharge, s.hasAtomId, C, s.box, some bs'⟩ := by
   have hlt : ∀ b ∈ bs, b.i < b.j := fun b hb => (w.lt b hb).1
-  -- chem_comp_bond
   have hccb : ∃ ccb dictFor, setIntra s.atoms bs = .ok ccb ∧
       connectViaResNames ccd s.atoms (ccb.map parseIntra) =
         mergeBonds (normBonds (connectIntra s.atoms dictFor)) (normBonds (connectInter ccd (residues s.atoms))) ∧
@@ -265,31 +274,71 @@ theorem bonds_roundtrip (ccd : Ccd) (s : Structure) (bs : List Bond) (w : WFS cc
       · intro h; simp [normBonds, normBondsAux] at h
       · rintro ⟨hb, hi⟩; rw [hno b hb] at hi; exact absurd hi (by simp)
   obtain ⟨ccb, dictFor, hset, hdict, hI⟩ := hccb
-  -- struct_conn
   let rest := bs.filter (isConnRow s.atoms)
   have hrest : ∀ b, b ∈ rest ↔ b ∈ bs ∧ isConnRow s.atoms b = true := by intro b; simp [rest, List.mem_filter]
-  -- links
-  have hLmem : ∀ b, b ∈ normBonds (connectInter ccd (residues s.atoms)) ↔ b ∈ connectInter ccd (residues s.atoms) :=
-    mem_normBonds_of_mem bs _ w.unique hlt w.linksPresent
-  -- base = connect_via_residue_names
+  let linkL := connectInter ccd (residues s.atoms)
+  -- facts about the links the reader creates
+  have hlink : ∀ y ∈ linkL, y.t = btSingle ∧ inStructConn (resPos s.atoms) y = true ∧ y.i < y.j ∧
+      (y ∈ bs ∨ ∃ z ∈ rest, z.i = y.i ∧ z.j = y.j) := by
+    intro y hy
+    obtain ⟨_, _, ht, hin, _⟩ := generated_link_class ccd s.atoms y hy
+    obtain ⟨t, hz⟩ := w.linksPaired y hy
+    have hzlt := (w.lt _ hz).1
+    refine ⟨ht, hin, hzlt, ?_⟩
+    have hzin : inStructConn (resPos s.atoms) ⟨y.i, y.j, t⟩ = true := inStructConn_pair _ y _ rfl rfl hin ht
+    rcases bond_class s.atoms ⟨y.i, y.j, t⟩ with h | h | h
+    · simp [isIntra, hzin] at h
+    · left
+      have : t = btSingle := dropped_single s.atoms _ h
+      have hy' : y = ⟨y.i, y.j, t⟩ := by cases y; simp_all
+      rw [hy']; exact hz
+    · right; exact ⟨_, (hrest _).mpr ⟨hz, h⟩, rfl, rfl⟩
+  -- the reference list for `connect_via_residue_names`: links + intra-residue bonds
+  let ref2 := linkL ++ bs.filter (isIntra s.atoms)
+  have href2 : ∀ b, b ∈ ref2 ↔ b ∈ linkL ∨ (b ∈ bs ∧ isIntra s.atoms b = true) := by
+    intro b; simp [ref2, List.mem_filter]
+  have hu2 : UniquePairs ref2 := by
+    intro a ha b hb hi hj
+    rcases (href2 a).mp ha with ha | ha <;> rcases (href2 b).mp hb with hb | hb
+    · have := (hlink a ha).1; have := (hlink b hb).1
+      cases a; cases b; simp_all
+    · exfalso
+      have h1 := inStructConn_pair _ a b hi.symm hj.symm (hlink a ha).2.1 (hlink a ha).1
+      simp [isIntra, h1] at hb
+    · exfalso
+      have h1 := inStructConn_pair _ b a hi hj (hlink b hb).2.1 (hlink b hb).1
+      simp [isIntra, h1] at ha
+    · exact w.unique a ha.1 b hb.1 hi hj
+  have hlt2 : ∀ b ∈ ref2, b.i < b.j := by
+    intro b hb
+    rcases (href2 b).mp hb with h | h
+    · exact (hlink b h).2.2.1
+    · exact hlt b h.1
+  have hLN : ∀ b, b ∈ normBonds linkL ↔ b ∈ linkL :=
+    mem_normBonds_of_mem ref2 linkL hu2 hlt2 (fun x hx => (href2 x).mpr (Or.inl hx))
   have hbase : ∀ b, b ∈ connectViaResNames ccd s.atoms (ccb.map parseIntra) ↔
-      (b ∈ connectInter ccd (residues s.atoms) ∨ (b ∈ bs ∧ isIntra s.atoms b = true)) := by
+      (b ∈ linkL ∨ (b ∈ bs ∧ isIntra s.atoms b = true)) := by
     intro b
     rw [hdict]
     unfold mergeBonds
-    rw [mem_normBonds_of_mem bs _ w.unique hlt]
-    · rw [List.mem_append, hLmem, hI]
+    rw [mem_normBonds_of_mem ref2 _ hu2 hlt2]
+    · rw [List.mem_append, hLN, hI]
     · intro x hx
-      rw [List.mem_append, hLmem, hI] at hx
-      rcases hx with hx | hx
-      · exact w.linksPresent x hx
-      · exact hx.1
-  have hbase_sub : ∀ b ∈ connectViaResNames ccd s.atoms (ccb.map parseIntra), b ∈ bs := by
-    intro b hb
-    rcases (hbase b).mp hb with h | h
-    · exact w.linksPresent b h
-    · exact h.1
-  -- every bond of the structure is in one of the three classes and comes back
+      rw [List.mem_append, hLN, hI] at hx
+      exact (href2 x).mpr hx
+  -- struct_conn wins over the implicit links; everything comes back
+  have hrestN : ∀ b, b ∈ normBonds rest ↔ b ∈ rest :=
+    mem_normBonds_of_mem bs rest w.unique hlt (fun x hx => ((hrest x).mp hx).1)
+  have hpairEq : ∀ (a y : Bond), a.i = y.i → a.j = y.j → pairOf a = pairOf y := by
+    intro a y h1 h2; simp [pairOf, h1, h2]
+  have hshadowB : ∀ (A : List Bond), (∀ z, z ∈ A ↔ z ∈ rest) →
+      ∀ x ∈ connectViaResNames ccd s.atoms (ccb.map parseIntra), x ∈ bs ∨ ∃ a ∈ A, pairOf a = pairOf x := by
+    intro A hA x hx
+    rcases (hbase x).mp hx with h | h
+    · rcases (hlink x h).2.2.2 with hb | ⟨z, hz, h1, h2⟩
+      · left; exact hb
+      · right; exact ⟨z, (hA z).mpr hz, hpairEq z x h1 h2⟩
+    · left; exact h.1
   have hall : ∀ b ∈ bs, b ∈ rest ∨ b ∈ connectViaResNames ccd s.atoms (ccb.map parseIntra) := by
     intro b hb
     rcases bond_class s.atoms b with h | h | h
@@ -300,98 +349,107 @@ theorem bonds_roundtrip (ccd : Ccd) (s : Structure) (bs : List Bond) (w : WFS cc
       exact (dropped_link_restored ccd s.atoms w.namesUnique b (by have := (w.lt b hb).1; omega) hj h).mpr
         (w.droppedClassified b hb h)
     · left; exact (hrest b).mpr ⟨hb, h⟩
-  -- the written block
-  obtain ⟨c0, cs, hcoords⟩ : ∃ c0 cs, s.coords = c0 :: cs := by
-    cases hcs : s.coords with
-    | nil => exact absurd hcs w.coords_ne
-    | cons c0 cs => exact ⟨c0, cs, rfl⟩
-  have hc0 : c0.length = s.atoms.length := w.coords_len c0 (by rw [hcoords]; simp)
-  let rows := modelBlock s.hasAtomId 1 0 (writeRows s) c0
-  have hrowsel : (splitModels (writeSite s)).getD 0 [] = rows := by
-    rw [split_writeSite s w.atoms_ne w.coords_len, hcoords]
-    simp [modelBlocks, rows]
-  have hes : (entityIds (s.atoms.map (·.chain))).length = s.atoms.length := by
-    simp [entityIds, entityIdsAux_length]
-  obtain ⟨hatoms, hxyz⟩ := read_modelBlock s.hasCharge s.hasAtomId 1 s.atoms _ c0 0 hes hc0
-  have hatoms' : rows.map (readRow s.hasCharge s.hasAtomId) = s.atoms := by
-    show (modelBlock s.hasAtomId 1 0 (writeRows s) c0).map _ = _
-    rw [writeRows, hatoms, w.normal]
-  have hxyz' : rows.map (·.xyz) = c0 := hxyz
-  obtain ⟨hkeys, halts⟩ := modelBlock_keys s.hasAtomId 1 (writeRows s) c0 0 (by rw [hc0, writeRows_length])
-  have hmask : altlocMask .first s.atoms (rows.map (fun r => cellShown r.alt)) [] = List.replicate s.atoms.length true := by
-    apply mask_all
-    show ∀ a ∈ (modelBlock s.hasAtomId 1 0 (writeRows s) c0).map (fun r => cellShown r.alt), a = "."
-    rw [halts]; exact writeRows_alts s
-  have hsite_ne : writeSite s ≠ [] := by
-    intro h
-    have := hrowsel
-    rw [h] at this
-    simp [splitModels, splitModelsAux] at this
-    have hl : rows.length = 0 := by rw [this]; rfl
-    have : (rows.map (readRow s.hasCharge s.hasAtomId)).length = 0 := by simpa using hl
-    rw [hatoms'] at this
-    exact w.atoms_ne (List.length_eq_zero_iff.mp this)
-  -- assemble
+  have hwrite : ∀ conn, setInter s.atoms (writeRows s) bs = .ok conn →
+      writeBlock s true = .ok ⟨writeSite s, conn, ccb, s.box⟩ := by
+    intro conn hconn
+    have he : (s.atoms.isEmpty || s.coords.isEmpty) = false := by
+      cases h1 : s.atoms with
+      | nil => exact absurd h1 w.atoms_ne
+      | cons _ _ =>
+        cases h2 : s.coords with
+        | nil => exact absurd h2 w.coords_ne
+        | cons _ _ => rfl
+    simp [writeBlock, he, w.bonds, hconn, hset, bind, Except.bind, pure, Except.pure]
+  -- reading any model block
+  have hread : ∀ (conn : Option (List ConnRow)) (bs' : List Bond), (∀ b ∈ bs', b ∈ bs) →
+      (∀ (rows : List SiteRow), rows.map siteKey = (writeRows s).map siteKey →
+        (match conn with
+          | some c => (parseInter rows c).map fun inter =>
+              mergeBonds (connectViaResNames ccd s.atoms (ccb.map parseIntra)) inter
+          | none => .ok (connectViaResNames ccd s.atoms (ccb.map parseIntra))) = .ok bs') →
+      ∀ (k : Int) (i : Nat) (c : List Tok) (C : List (List Tok)), c.length = s.atoms.length →
+        (∀ x ∈ C, x.length = s.atoms.length) →
+        readCore ccd (modelBlock s.hasAtomId k i (writeRows s) c) C conn ccb s.box s.hasCharge s.hasAtomId =
+          .ok ⟨s.atoms, s.hasCharge, s.hasAtomId, C, s.box, some bs'⟩ := by
+    intro conn bs' hsub hbonds k i c C hc hC
+    have hes : (entityIds (s.atoms.map (·.chain))).length = s.atoms.length := by
+      simp [entityIds, entityIdsAux_length]
+    obtain ⟨hatoms, _⟩ := read_modelBlock s.hasCharge s.hasAtomId k s.atoms _ c i hes hc
+    have hatoms' : (modelBlock s.hasAtomId k i (writeRows s) c).map (readRow s.hasCharge s.hasAtomId) = s.atoms := by
+      rw [writeRows, hatoms, w.normal]
+    obtain ⟨hkeys, halts⟩ := modelBlock_keys s.hasAtomId k (writeRows s) c i (by rw [hc, writeRows_length])
+    have hmask : altlocMask .first s.atoms
+        ((modelBlock s.hasAtomId k i (writeRows s) c).map (fun r => cellShown r.alt)) [] =
+        List.replicate s.atoms.length true := by
+      apply mask_all
+      rw [halts]; exact writeRows_alts s
+    have hCmap : C.map (applyMask (List.replicate s.atoms.length true)) = C := by
+      conv => rhs; rw [← List.map_id C]
+      apply List.map_congr_left
+      intro x hx
+      rw [← hC x hx, applyMask_all]; rfl
+    have hb := hbonds _ hkeys
+    unfold readCore
+    simp only [hatoms', hmask, hCmap]
+    rw [applyMask_all]
+    cases conn with
+    | none =>
+      simp only at hb ⊢
+      have : connectViaResNames ccd s.atoms (ccb.map parseIntra) = bs' := by simpa using hb
+      rw [this, filterBonds_all _ _ (fun b hb' => by have := w.lt b (hsub b hb'); omega)]
+    | some cr =>
+      simp only at hb ⊢
+      cases hp : parseInter (modelBlock s.hasAtomId k i (writeRows s) c) cr with
+      | error e => rw [hp] at hb; simp [Except.map] at hb
+      | ok inter =>
+        rw [hp] at hb
+        have : mergeBonds (connectViaResNames ccd s.atoms (ccb.map parseIntra)) inter = bs' := by
+          simpa [Except.map] using hb
+        simp only [Except.map]
+        rw [this, filterBonds_all _ _ (fun b hb' => by have := w.lt b (hsub b hb'); omega)]
   rcases setInter_spec s.atoms (writeRows s) bs w.interTypes with ⟨hnil, hconn⟩ | ⟨hnn, hconn⟩
-  · -- no struct_conn category
-    refine ⟨⟨writeSite s, none, ccb, s.box⟩, connectViaResNames ccd s.atoms (ccb.map parseIntra), ?_, ?_, ?_⟩
-    · have he : (s.atoms.isEmpty || s.coords.isEmpty) = false := by
-        cases h1 : s.atoms with
-        | nil => exact absurd h1 w.atoms_ne
-        | cons _ _ => rw [hcoords]; rfl
-      simp [writeBlock, he, w.bonds, hconn, hset, bind, Except.bind, pure, Except.pure]
-    · rw [readStructure_model1 ccd _ _ _ hsite_ne]
-      simp only [hrowsel, readCore, hatoms', hxyz', hmask, hcoords, List.headD_cons]
-      rw [applyMask_all, filterBonds_all _ _ (fun b hb => by
-        have := w.lt b (hbase_sub b hb); omega)]
-      simp only [List.map_cons, List.map_nil]
-      rw [← hc0, applyMask_all]
-    · intro b
+  · -- no struct_conn category: nothing is shadowed
+    have hrestnil : ∀ z, z ∈ ([] : List Bond) ↔ z ∈ rest := by
+      intro z; show z ∈ [] ↔ z ∈ bs.filter (isConnRow s.atoms); rw [hnil]
+    have hmem : ∀ b, b ∈ connectViaResNames ccd s.atoms (ccb.map parseIntra) ↔ b ∈ bs := by
+      intro b
       constructor
-      · exact hbase_sub b
+      · intro hb
+        rcases hshadowB [] hrestnil b hb with h | ⟨a, ha, _⟩
+        · exact h
+        · simp at ha
       · intro hb
         rcases hall b hb with h | h
         · have : b ∈ bs.filter (isConnRow s.atoms) := h
           rw [hnil] at this; simp at this
         · exact h
-  · -- with struct_conn rows
-    have hparse : parseInter rows (mkConnRows (writeRows s) 0 rest) = .ok (normBonds rest) := by
-      rw [parseInter_congr rows (writeRows s) _ hkeys]
+    exact ⟨none, ccb, _, hwrite none hconn, hmem, hread none _ (fun b hb => (hmem b).mp hb) (fun _ _ => rfl)⟩
+  · have hparse : ∀ rows : List SiteRow, rows.map siteKey = (writeRows s).map siteKey →
+        parseInter rows (mkConnRows (writeRows s) 0 rest) = .ok (normBonds rest) := by
+      intro rows hk
+      rw [parseInter_congr rows (writeRows s) _ hk]
       apply parseInter_mk _ _ w.keys
       intro b hb
       obtain ⟨hb1, hb2⟩ := (hrest b).mp hb
       have := w.lt b hb1
       rw [writeRows_length]
       exact ⟨by omega, this.2, w.interTypes b hb1 hb2⟩
-    have hrestN : ∀ b, b ∈ normBonds rest ↔ b ∈ rest :=
-      mem_normBonds_of_mem bs rest w.unique hlt (fun x hx => ((hrest x).mp hx).1)
     have hmerge : ∀ b, b ∈ mergeBonds (connectViaResNames ccd s.atoms (ccb.map parseIntra)) (normBonds rest) ↔ b ∈ bs := by
       intro b
       unfold mergeBonds
-      rw [mem_normBonds_of_mem bs _ w.unique hlt]
-      · rw [List.mem_append, hrestN]
-        constructor
-        · rintro (h | h)
-          · exact ((hrest b).mp h).1
-          · exact hbase_sub b h
-        · exact hall b
-      · intro x hx
-        rw [List.mem_append, hrestN] at hx
-        rcases hx with h | h
-        · exact ((hrest x).mp h).1
-        · exact hbase_sub x h
-    refine ⟨⟨writeSite s, some (mkConnRows (writeRows s) 0 rest), ccb, s.box⟩,
-      mergeBonds (connectViaResNames ccd s.atoms (ccb.map parseIntra)) (normBonds rest), ?_, ?_, hmerge⟩
-    · have he : (s.atoms.isEmpty || s.coords.isEmpty) = false := by
-        cases h1 : s.atoms with
-        | nil => exact absurd h1 w.atoms_ne
-        | cons _ _ => rw [hcoords]; rfl
-      simp [writeBlock, he, w.bonds, hconn, hset, bind, Except.bind, pure, Except.pure, rest]
-    · rw [readStructure_model1 ccd _ _ _ hsite_ne]
-      simp only [hrowsel, readCore, hparse, hatoms', hxyz', hmask, hcoords, List.headD_cons, Except.map]
-      rw [applyMask_all, filterBonds_all _ _ (fun b hb => by
-        have := w.lt b ((hmerge b).mp hb); omega)]
-      simp only [List.map_cons, List.map_nil]
-      rw [← hc0, applyMask_all]
+      rw [mem_normBonds_shadow bs _ _ w.unique hlt (fun x hx => ((hrest x).mp ((hrestN x).mp hx)).1)
+        (hshadowB (normBonds rest) hrestN)]
+      constructor
+      · rintro (h | ⟨_, h⟩)
+        · exact ((hrest b).mp ((hrestN b).mp h)).1
+        · exact h
+      · intro hb
+        rcases hall b hb with h | h
+        · left; exact (hrestN b).mpr h
+        · right; exact ⟨h, hb⟩
+    refine ⟨some (mkConnRows (writeRows s) 0 rest), ccb, _, hwrite _ hconn, hmerge,
+      hread _ _ (fun b hb => (hmerge b).mp hb) ?_⟩
+    intro rows hk
+    simp only [hparse rows hk, Except.map]
 
 end BiotiteModel.C04
